@@ -1,4 +1,5 @@
 import NfcVerif.Props.C01T34
+import NfcVerif.Lemmas.T3Format
 /-!
 # C03, part t34 - NDEF writes touch nothing outside the NDEF area (Type 3, Type 4)
 
@@ -35,6 +36,32 @@ theorem t4_write_confined (v : T4.Variant) (c : T4.Card) (i : T4.Info) (data : B
   intro u hu
   have := hc.1 u hu
   omega
+
+/-- Type 3 `format(version, wipe)` (repaired code, `Model/T3Format.lean`): on a tag of `N ≥ 1` blocks (at most
+65536) that accepts at least one block per read / write command, with no version or a version 1.x and no wipe
+or a wipe octet: the call returns True; afterwards the memory is the new attribute block (the version,
+Nbr = min(limR, 15), Nbw = min(limW, 13) reduced to 12 when block numbers need three octets, Nmaxb = N-1,
+WriteF 0, RWFlag 1, Ln 0) followed by the UNCHANGED data blocks (no wipe) or by `16·(N-1)` wipe octets; every
+state-changing command, the probing writes included, addresses blocks below `N` only. -/
+theorem t3_format_confined (t : T3.Phys) (N : Nat) (hm : t.mem.length = 16 * N) (hN : 1 ≤ N ∧ N ≤ 65536)
+    (hr : 1 ≤ t.limR) (hw : 1 ≤ t.limW) (version wipe : Option Nat)
+    (hv : ∀ v, version = some v → v / 16 = 1) (hwp : ∀ w, wipe = some w → w < 256) :
+    (T3.format true t version wipe).res = .ok true ∧
+    (T3.format true t version wipe).mem
+      = T3.formatAttr (version.getD 0x10) (min t.limR 15) (T3.fmtNbw t.limW N) (N - 1)
+          ++ (match wipe with
+              | none => t.mem.drop 16
+              | some w => List.replicate (16 * (N - 1)) w) ∧
+    ∀ c ∈ (T3.format true t version wipe).sent, ∀ b ∈ c.blocks, b < N :=
+  T3.format_spec t N hm hN hr hw version wipe hv hwp
+
+/-- on the unchanged code `format()` without a version raises `struct.error` after the probing writes -/
+theorem t3_format_version_none_counterexample :
+    (T3.format false ⟨List.replicate 32 7, 1, 1⟩ none none).res = .error .struct ∧
+    (T3.format false ⟨List.replicate 32 7, 1, 1⟩ none none).sent.length = 1 := by decide
+
+example : (T3.format true ⟨List.replicate 48 7, 2, 1⟩ none (some 0x5A)).mem
+    = T3.formatAttr 0x10 2 1 2 ++ List.replicate 32 0x5A := by decide
 
 example : ∃ t, T3.setOctets C01T34.exM [5, 6] = .ok (some t) ∧ t.mem.drop 32 = C01T34.exM.drop 32 := by
   obtain ⟨t, h1, _, h3, _⟩ := t3_write_confined _ [5, 6] _ C01T34.exWF3 (by decide)
